@@ -1134,7 +1134,17 @@ fn prologue(g: &mut Gen, variant: u64) {
             g.push(Op::SetRefTarget(rf, sig));
         }
     }
-    if variant % 5 == 2 {
+    {
+        // a reference INSIDE the first package to an element of the same package (follows the package when it moves)
+        let r = g.push(Op::CreateNamed(elems[0], n.elidx("I-SIGNAL"), b"b".to_vec()));
+        if let (Some(is), Some(sig)) = (r.strip_prefix("R OK h").and_then(|x| x.parse::<usize>().ok()), sig) {
+            let r = g.push(Op::CreateSub(is, n.elidx("SYSTEM-SIGNAL-REF")));
+            if let Some(rf) = r.strip_prefix("R OK h").and_then(|x| x.parse::<usize>().ok()) {
+                g.push(Op::SetRefTarget(rf, sig));
+            }
+        }
+    }
+    if variant % 5 == 2 || variant % 5 == 4 {
         // a second model of the same version whose AR-PACKAGES already holds a package named like one of the first model
         g.push(Op::NewModel);
         let m = g.ex.models.len() - 1;
